@@ -48,6 +48,11 @@ def run(c, a):
     nb = c.tlc_sim("PathSetSM", "PathSetSim.cfg", beh, 12000 if thorough else 2000, depth + 1, env={"VDEPTH": depth})
     c.note("pathset behaviours", nb)
     POOLS["pset"] = json.loads(open(beh).readline())["pool"]
+    # histories predicted by the slice-level model of cty/set under sharing hypotheses (five single-index paths share one bucket)
+    from checks.c03 import impl_predictions
+    pool = POOLS["pset"]
+    coll = [i + 1 for i, p in enumerate(pool) if len(p["p"]) == 1 and p["p"][0]["s"] == "idx" and p["rep"] == 0][:5]
+    c.note("predicted isolation-breaking histories from SetImpl:", impl_predictions(c, beh, elems=coll, nocopy=True))
     pev = c.path("pset-ev.ndjson")
     c.harness("pset", pev, inp=beh)
     c.sample_events(pev, 1, lambda l: '"AddAllSteps"' in l)
